@@ -23,6 +23,16 @@ def gen_strategy_scenario(rng, style=None, with_liq=True):
     style = style or rng.choice(["calm", "jumpy", "const", "const"])
     prices = B.gen_prices(rng, n, style)
     ds = B.dataset_from(prices, n)
+    # how the Penelope is loaded: by date (as the crate's own tests do), or one symbol at a time — then every date
+    # after the first symbol's is met again out of order; add_quote must not list it twice. Done only when the
+    # symbol loaded first is quoted on every date, so the dates still first appear in increasing order.
+    if rng.random() < 0.4:
+        all_dates = sorted({q[2] for q in ds})
+        full = [sy for sy in B.SYMS if sorted(q[2] for q in ds if q[3] == sy) == all_dates]
+        if full:
+            first = rng.choice(full)
+            order_ = [first] + [sy for sy in B.SYMS if sy != first]
+            ds = sorted(ds, key=lambda q: (order_.index(q[3]), q[2]))
     costs = B.gen_costs(rng)
     k = rng.choice([1, 2, 3])
     syms = rng.sample(B.SYMS, k)
@@ -105,19 +115,12 @@ def strategy_steps(sc, tr, idx):
 
 YASPECTS = {0: "sys-kind", 1: "sys-strategy", 2: "sys-server"}
 SYS_IMPORTS = IMPORTS.replace("Check.StrategyCheck.", "Check.StrategyCheck Check.SystemCheck.").replace(
-    "Model.Uist Model.Broker", "Model.Uist Model.Server Model.Broker")
+    "Model.Uist Model.Broker", "Model.Uist Model.Server Model.Penelope Model.Broker")
 
 
 def dataset_term(sc):
-    """the Penelope the scenario's add_quote calls build: dates in first-insertion order, rows by date"""
-    dates, rows = [], {}
-    for bid, ask, date, sym in sc["dataset"]:
-        if date not in rows:
-            rows[date] = {}
-            dates.append(date)
-        rows[date][sym] = dict(key=sym, bid=bid, ask=ask, date=date, symbol=sym)
-    return gc("mkDataset", gl([gz(d) for d in dates]),
-              gl([gt(gz(d), gl([exch.g_quote(rows[d][k]) for k in sorted(rows[d])])) for d in dates]))
+    """the Penelope the scenario's add_quote calls build: Model/Penelope.v's load of the same script"""
+    return "(load %s)" % gl([gt(gf(bid), gf(ask), gz(date), gs(sym)) for bid, ask, date, sym in sc["dataset"]])
 
 
 def g_sys(sn, costs_name, ws_name, ds_name):
